@@ -7,6 +7,7 @@ CONSTANTS
   Persistent = TRUE
   StartupScrub = TRUE
   EraseOnLookup = FALSE
+  CleanFailedWrite = TRUE
   ListRaw = TRUE
 INVARIANTS C01_ReadExact
 VIEW View
